@@ -276,22 +276,35 @@ fn evaluate_on(backend: &MemBackend, region_size: u64, ex: &Expect) -> Outcome {
 struct Alt {
     kind: &'static str,
     writes: Vec<(usize, Vec<u8>)>,
+    /// the file is first cut or extended to this length (extension filled with the given byte)
+    new_len: Option<(usize, u8)>,
 }
 
 impl Alt {
-    fn apply(&self, img: &mut [u8]) {
-        for (off, b) in &self.writes {
-            img[*off..*off + b.len()].copy_from_slice(b);
-        }
+    fn apply(&self, img: &mut Vec<u8>) {
+        apply_spec(img, self.new_len, &self.writes);
     }
+    /// `len=<new length>/<fill byte hex>` first (if the length changes), then `offset:hexbytes` writes
     fn spec(&self) -> String {
-        self.writes.iter().map(|(o, b)| format!("{}:{}", o, hex(b))).collect::<Vec<_>>().join(",")
+        let mut parts: Vec<String> = vec![];
+        if let Some((n, fill)) = self.new_len {
+            parts.push(format!("len={n}/{fill:02x}"));
+        }
+        parts.extend(self.writes.iter().map(|(o, b)| format!("{}:{}", o, hex(b))));
+        parts.join(",")
+    }
+    fn parse_len(s: &str) -> Option<(usize, u8)> {
+        s.split(',').find_map(|p| {
+            let (n, f) = p.strip_prefix("len=")?.split_once('/')?;
+            Some((n.parse().ok()?, u8::from_str_radix(f, 16).ok()?))
+        })
     }
     fn parse(s: &str) -> Vec<(usize, Vec<u8>)> {
         if s == "none" || s.is_empty() {
             return vec![];
         }
         s.split(',')
+            .filter(|p| !p.starts_with("len="))
             .map(|p| {
                 let (o, h) = p.split_once(':').unwrap();
                 (o.parse().unwrap(), unhex(h))
@@ -300,6 +313,18 @@ impl Alt {
     }
     fn first_off(&self) -> usize {
         self.writes.iter().map(|w| w.0).min().unwrap_or(0)
+    }
+}
+
+/// length change first, then the byte writes (a write that no longer fits the file is dropped)
+fn apply_spec(img: &mut Vec<u8>, new_len: Option<(usize, u8)>, writes: &[(usize, Vec<u8>)]) {
+    if let Some((n, fill)) = new_len {
+        img.resize(n, fill);
+    }
+    for (off, b) in writes {
+        if off + b.len() <= img.len() {
+            img[*off..*off + b.len()].copy_from_slice(b);
+        }
     }
 }
 
@@ -313,6 +338,7 @@ fn kind_static(s: &str) -> &'static str {
         "pageswap" => "pageswap",
         "slotswap" => "slotswap",
         "field" => "field",
+        "length" => "length",
         "none" => "none",
         _ => "other",
     }
@@ -320,10 +346,10 @@ fn kind_static(s: &str) -> &'static str {
 
 fn single_byte_alts(img: &[u8], off: usize, out: &mut Vec<Alt>) {
     let b = img[off];
-    out.push(Alt { kind: "byte^ff", writes: vec![(off, vec![b ^ 0xff])] });
-    out.push(Alt { kind: "byte^01", writes: vec![(off, vec![b ^ 0x01])] });
+    out.push(Alt { new_len: None, kind: "byte^ff", writes: vec![(off, vec![b ^ 0xff])] });
+    out.push(Alt { new_len: None, kind: "byte^01", writes: vec![(off, vec![b ^ 0x01])] });
     if b != 0 {
-        out.push(Alt { kind: "byte:=0", writes: vec![(off, vec![0])] });
+        out.push(Alt { new_len: None, kind: "byte:=0", writes: vec![(off, vec![0])] });
     }
 }
 
@@ -336,7 +362,7 @@ fn header_alts(img: &[u8], out: &mut Vec<Alt>) {
     ];
     let mut push = |off: usize, bytes: Vec<u8>| {
         if img[off..off + bytes.len()] != bytes[..] {
-            out.push(Alt { kind: "field", writes: vec![(off, bytes)] });
+            out.push(Alt { new_len: None, kind: "field", writes: vec![(off, bytes)] });
         }
     };
     for (i, (o, l)) in fields.iter().enumerate() {
@@ -367,13 +393,13 @@ fn header_alts(img: &[u8], out: &mut Vec<Alt>) {
     let s0 = img[64..192].to_vec();
     let s1 = img[192..320].to_vec();
     if s0 != s1 {
-        out.push(Alt { kind: "slotswap", writes: vec![(64, s1.clone()), (192, s0.clone())] });
-        out.push(Alt { kind: "slotswap", writes: vec![(64, s1.clone()), (192, s0.clone()), (9, vec![img[9] ^ 1])] });
-        out.push(Alt { kind: "slotswap", writes: vec![(64, s1.clone())] });
-        out.push(Alt { kind: "slotswap", writes: vec![(192, s0.clone())] });
-        out.push(Alt { kind: "slotswap", writes: vec![(9, vec![img[9] ^ 1])] });
-        out.push(Alt { kind: "slotswap", writes: vec![(9, vec![img[9] & !4])] });
-        out.push(Alt { kind: "slotswap", writes: vec![(9, vec![(img[9] ^ 1) & !4])] });
+        out.push(Alt { new_len: None, kind: "slotswap", writes: vec![(64, s1.clone()), (192, s0.clone())] });
+        out.push(Alt { new_len: None, kind: "slotswap", writes: vec![(64, s1.clone()), (192, s0.clone()), (9, vec![img[9] ^ 1])] });
+        out.push(Alt { new_len: None, kind: "slotswap", writes: vec![(64, s1.clone())] });
+        out.push(Alt { new_len: None, kind: "slotswap", writes: vec![(192, s0.clone())] });
+        out.push(Alt { new_len: None, kind: "slotswap", writes: vec![(9, vec![img[9] ^ 1])] });
+        out.push(Alt { new_len: None, kind: "slotswap", writes: vec![(9, vec![img[9] & !4])] });
+        out.push(Alt { new_len: None, kind: "slotswap", writes: vec![(9, vec![(img[9] ^ 1) & !4])] });
     }
 }
 
@@ -393,10 +419,135 @@ fn forged_count_alts(img: &[u8], out: &mut Vec<Alt>) {
                 slot[off..off + 8].copy_from_slice(&cur.wrapping_add(delta).to_le_bytes());
                 let sum = redb::verif::xxh3_128(&slot[..112]);
                 slot[112..128].copy_from_slice(&sum.to_le_bytes());
-                out.push(Alt { kind: "forged-count", writes: vec![(base + off, slot[off..].to_vec())] });
+                out.push(Alt { new_len: None, kind: "forged-count", writes: vec![(base + off, slot[off..].to_vec())] });
             }
         }
     }
+}
+
+
+/// class of an alteration: the byte classes of its writes, prefixed by the kind of length change
+fn class_of_alt(d: &fmt::Decoded, orig_len: usize, new_len: Option<(usize, u8)>, writes: &[(usize, Vec<u8>)]) -> String {
+    let w = if writes.is_empty() { String::new() } else { d.classify_writes(writes) };
+    match new_len {
+        None => w,
+        Some((n, _)) => {
+            let rl = d.geo.region_len().max(1);
+            let diff = n.abs_diff(orig_len);
+            let unit = if n < 320 {
+                "inside-header"
+            } else if diff % d.page_size != 0 {
+                "odd-bytes"
+            } else if diff % rl == 0 {
+                "whole-regions"
+            } else {
+                "whole-pages"
+            };
+            let l = format!("file-length.{}.{}", if n < orig_len { "truncate" } else { "extend" }, unit);
+            if w.is_empty() { l } else { format!("{l} & {w}") }
+        }
+    }
+}
+
+/// Header fields no checksum covers, set to values inside and outside what `from_bytes` accepts:
+/// region geometry (page size, region header pages, region max data pages), the stored region counts
+/// (including other descriptions of the same length and the MAX_REGIONS boundary), every bit of the god byte.
+fn geometry_alts(img: &[u8], out: &mut Vec<Alt>) {
+    if img.len() < 320 {
+        return;
+    }
+    let g = |o: usize| u32::from_le_bytes(img[o..o + 4].try_into().unwrap());
+    let (cap, full, trail) = (g(20), g(24), g(28));
+    let mut push = |writes: Vec<(usize, Vec<u8>)>| {
+        if writes.iter().any(|(o, b)| img[*o..*o + b.len()] != b[..]) {
+            out.push(Alt { new_len: None, kind: "field", writes });
+        }
+    };
+    let le = |v: u32| v.to_le_bytes().to_vec();
+    for v in [4096u32, 128, 64] {
+        push(vec![(12, le(v))]);
+    }
+    for v in [2u32, 3, 1 << 20, (1 << 20) + 1] {
+        push(vec![(16, le(v))]);
+    }
+    for v in [1u32, 2, 3, 15, cap.wrapping_sub(2), cap / 4, cap.wrapping_mul(4), 1 << 20, (1 << 20) + 1] {
+        push(vec![(20, le(v))]);
+    }
+    for v in [(1u32 << 20) - 1, 1 << 20, (1 << 20) + 1, full.wrapping_add(2), full.wrapping_sub(2)] {
+        push(vec![(24, le(v))]);
+    }
+    for v in [cap, cap.wrapping_add(1), cap.wrapping_sub(1), 1, trail.wrapping_add(2)] {
+        push(vec![(28, le(v))]);
+    }
+    // the same length described differently / consistently wrong pairs
+    if trail == 0 && full >= 1 {
+        push(vec![(24, le(full - 1)), (28, le(cap))]);
+    }
+    if trail == cap {
+        push(vec![(24, le(full + 1)), (28, le(0))]);
+    }
+    push(vec![(24, le(0)), (28, le(0))]);
+    push(vec![(24, le(full + 1)), (28, le(trail))]);
+    push(vec![(24, le(1 << 20)), (28, le(trail.max(1)))]);
+    // god byte: every single bit, unknown high bits, and the recovery flag together with damaged counts
+    for k in 0..8 {
+        push(vec![(9, vec![img[9] ^ (1 << k)])]);
+    }
+    for v in [img[9] | 0xf0, img[9] | 0x08, 0xff, 0x80] {
+        push(vec![(9, vec![v])]);
+    }
+    push(vec![(9, vec![img[9] | 2]), (24, le(u32::MAX)), (28, le(u32::MAX))]);
+    push(vec![(9, vec![img[9] | 2]), (24, le(0)), (28, le(0))]);
+}
+
+/// The file cut or extended: by whole pages, whole regions, odd byte counts, into the header; extensions
+/// filled with zeros or 0xAA; and length changes accompanied by region counts that describe the new length.
+fn length_alts(img: &[u8], page_size: usize, out: &mut Vec<Alt>) {
+    let n = img.len();
+    if n < 320 {
+        return;
+    }
+    let g = |o: usize| u32::from_le_bytes(img[o..o + 4].try_into().unwrap()) as usize;
+    let (hp, cap, full, trail) = (g(16), g(20), g(24), g(28));
+    let rl = ((hp + cap) * page_size).max(page_size);
+    let last_region_bytes = if trail > 0 { (hp + trail) * page_size } else { rl };
+    let mut seen: std::collections::BTreeSet<(usize, u8)> = Default::default();
+    let mut push = |out: &mut Vec<Alt>, len: usize, fill: u8, writes: Vec<(usize, Vec<u8>)>| {
+        if len >= 1 && len != n && len <= n + 8 * rl && (seen.insert((len, fill)) || !writes.is_empty()) {
+            out.push(Alt { new_len: Some((len, fill)), kind: "length", writes });
+        }
+    };
+    for cut in [1usize, 7, 255, page_size - 1, page_size, page_size + 1, 2 * page_size, 5 * page_size, last_region_bytes, last_region_bytes + page_size, rl, rl + last_region_bytes, 2 * rl, n / 2 / page_size * page_size] {
+        if cut < n {
+            push(out, n - cut, 0, vec![]);
+        }
+    }
+    for len in [1usize, 8, 9, 100, 319, 320, 321, page_size - 1, page_size, page_size + 1, 2 * page_size - 1, 2 * page_size, 3 * page_size] {
+        push(out, len, 0, vec![]);
+    }
+    let fill_up = if trail > 0 && trail < cap { (cap - trail) * page_size } else { rl };
+    for add in [1usize, 7, 255, page_size - 1, page_size, page_size + 1, 2 * page_size, fill_up, fill_up + page_size, rl, rl + page_size, rl - page_size, 2 * rl, 3 * rl + 2 * page_size] {
+        push(out, n + add, 0, vec![]);
+        if add == page_size || add == rl || add == 7 {
+            push(out, n + add, 0xaa, vec![]);
+        }
+    }
+    // length and stored counts changed together (a consistently smaller / larger file)
+    let le = |v: usize| (v as u32).to_le_bytes().to_vec();
+    if trail > 1 {
+        push(out, n - page_size, 0, vec![(28, le(trail - 1))]);
+    }
+    if trail > 0 && full > 0 {
+        push(out, n - last_region_bytes, 0, vec![(28, le(0))]);
+    }
+    if trail == 0 && full > 1 {
+        push(out, n - rl, 0, vec![(24, le(full - 1))]);
+        push(out, n - page_size, 0, vec![(24, le(full - 1)), (28, le(cap - 1))]);
+    }
+    if trail > 0 && trail < cap {
+        push(out, n + page_size, 0, vec![(28, le(trail + 1))]);
+    }
+    push(out, n + rl, 0, vec![(24, le(full + 1))]);
 }
 
 // ------------------------------------------------------------------ worker
@@ -433,9 +584,7 @@ fn worker_main(args: &[String]) {
             let mut b = backend.0.lock().unwrap_or_else(|e| e.into_inner());
             b.clear();
             b.extend_from_slice(&img);
-            for (off, bytes) in Alt::parse(spec) {
-                b[off..off + bytes.len()].copy_from_slice(&bytes);
-            }
+            apply_spec(&mut b, Alt::parse_len(spec), &Alt::parse(spec));
         }
         let o = evaluate_on(&backend, region_size, &ex);
         let mut out = stdout.lock();
@@ -639,9 +788,11 @@ fn process_image(exe: &str, h: &History, profile: u32, ii: usize, img: &Image, b
     let n = img.bytes.len();
 
     // ---- alteration plan
-    let mut alts: Vec<Alt> = vec![Alt { kind: "none", writes: vec![] }];
+    let mut alts: Vec<Alt> = vec![Alt { new_len: None, kind: "none", writes: vec![] }];
     header_alts(&img.bytes, &mut alts);
     forged_count_alts(&img.bytes, &mut alts);
+    geometry_alts(&img.bytes, &mut alts);
+    length_alts(&img.bytes, PAGE_SIZE, &mut alts);
     let exhaustive = n * 12 / 5 <= budget;
     if exhaustive {
         for off in 0..n {
@@ -691,7 +842,7 @@ fn process_image(exe: &str, h: &History, profile: u32, ii: usize, img: &Image, b
         } else {
             r.below(n as u64) as usize
         };
-        alts.push(Alt { kind: "bit", writes: vec![(off, vec![img.bytes[off] ^ (1 << r.below(8))])] });
+        alts.push(Alt { new_len: None, kind: "bit", writes: vec![(off, vec![img.bytes[off] ^ (1 << r.below(8))])] });
     }
     for _ in 0..n_extra {
         let (po, pl) = if !used_pages.is_empty() && r.chance(4, 5) { *r.pick(&used_pages) } else { ((r.below((n / PAGE_SIZE) as u64) as usize) * PAGE_SIZE, PAGE_SIZE) };
@@ -707,7 +858,7 @@ fn process_image(exe: &str, h: &History, profile: u32, ii: usize, img: &Image, b
             _ => r.bytes(len),
         };
         if img.bytes[po + start..po + start + len] != bytes[..] {
-            alts.push(Alt { kind: "run", writes: vec![(po + start, bytes)] });
+            alts.push(Alt { new_len: None, kind: "run", writes: vec![(po + start, bytes)] });
         }
     }
     let npages = n / PAGE_SIZE;
@@ -720,7 +871,7 @@ fn process_image(exe: &str, h: &History, profile: u32, ii: usize, img: &Image, b
         let pa = img.bytes[a * PAGE_SIZE..(a + 1) * PAGE_SIZE].to_vec();
         let pb = img.bytes[b * PAGE_SIZE..(b + 1) * PAGE_SIZE].to_vec();
         if a != b && pa != pb {
-            alts.push(Alt { kind: "pageswap", writes: vec![(a * PAGE_SIZE, pb), (b * PAGE_SIZE, pa)] });
+            alts.push(Alt { new_len: None, kind: "pageswap", writes: vec![(a * PAGE_SIZE, pb), (b * PAGE_SIZE, pa)] });
         }
     }
 
@@ -767,10 +918,15 @@ fn process_image(exe: &str, h: &History, profile: u32, ii: usize, img: &Image, b
     for (i, alt) in alts.iter().enumerate().skip(1) {
         let o = outcomes[i].clone().unwrap_or_else(|| Outcome { open: "lost".into(), panic_stage: "lost".into(), panic_loc: "process-lost".into(), ..Default::default() });
         let class = match &dec {
-            Ok(d) => d.classify_writes(&alt.writes),
+            Ok(d) => class_of_alt(d, n, alt.new_len, &alt.writes),
             Err(_) => fmt::coarse_class(alt.first_off(), PAGE_SIZE),
         };
-        let covered = match &dec {
+        // a cut that removes a covered byte alters it as well
+        let cut_covered = match (&dec, alt.new_len) {
+            (Ok(d), Some((l, _))) if l < n => (l..n).any(|o| d.is_covered(o)),
+            _ => false,
+        };
+        let covered = cut_covered || match &dec {
             Ok(d) => alt.writes.iter().any(|(o, b)| (0..b.len()).any(|j| b[j] != img.bytes[o + j] && d.is_covered(o + j))),
             Err(_) => false,
         };
@@ -866,8 +1022,8 @@ fn process_image(exe: &str, h: &History, profile: u32, ii: usize, img: &Image, b
         let mut pick: Vec<usize> = vec![0];
         let mut page_alts: Vec<usize> = vec![];
         for (i, alt) in alts.iter().enumerate().skip(1) {
-            if alt.writes.iter().any(|(o, _)| *o < 320) {
-                if alt.kind == "field" || alt.kind == "slotswap" || i % 7 == 0 {
+            if alt.new_len.is_some() || alt.writes.iter().any(|(o, _)| *o < 320) {
+                if alt.new_len.is_some() || alt.kind == "field" || alt.kind == "slotswap" || alt.kind == "forged-count" || i % 7 == 0 {
                     pick.push(i);
                 }
             } else {
@@ -894,7 +1050,7 @@ fn process_image(exe: &str, h: &History, profile: u32, ii: usize, img: &Image, b
                         .map(|l| {
                             let mut it = l.splitn(3, ' ');
                             let a = it.next().unwrap_or("");
-                            let k = if a == "G" { "G".to_string() } else { format!("{} {}", a, it.next().unwrap_or("")) };
+                            let k = if a == "G" || a == "F" { a.to_string() } else { format!("{} {}", a, it.next().unwrap_or("")) };
                             (k, l.to_string())
                         })
                         .collect();
@@ -926,9 +1082,23 @@ fn process_image(exe: &str, h: &History, profile: u32, ii: usize, img: &Image, b
                     writeln!(
                         rep.real_out, "{id}\t{}\t{}\t{}\t{}\t{}\t{}", verdict_code(o, latest), d.served, u8::from(ambiguous),
                         ptrs.join(","), alts[i].spec().chars().take(80).collect::<String>(),
-                        d.classify_writes(&alts[i].writes)
+                        class_of_alt(d, n, alts[i].new_len, &alts[i].writes)
                     ).unwrap();
                     rep.model_blocks += 1;
+                }
+                Err(_) if i != 0 => {
+                    // the reader cannot decode slots/pages (bad magic, geometry, a file cut inside the
+                    // header): the model gets the header facts only and must answer erropen
+                    let id = format!("{tag}|{i}");
+                    writeln!(rep.model_in, "D {id}").unwrap();
+                    rep.model_in.push_str(&fmt::export_file_line(&b, PAGE_SIZE));
+                    rep.model_in.push_str("E\n");
+                    writeln!(
+                        rep.real_out, "{id}\t{}\t{}\t{}\t\t{}\t{}", verdict_code(o, latest), d.served, u8::from(ambiguous),
+                        alts[i].spec().chars().take(80).collect::<String>(), class_of_alt(d, n, alts[i].new_len, &alts[i].writes)
+                    ).unwrap();
+                    rep.model_blocks += 1;
+                    rep.model_skipped += 1;
                 }
                 Err(_) => rep.model_skipped += 1,
             }
@@ -1068,13 +1238,19 @@ fn replay_main(args: &[String]) {
     let cps: Vec<String> = h.commits[..=img.upto].iter().map(|c| c.dump.clone()).collect();
     let ex = Expect { cps: &cps, savepoints: &img.savepoints, deep_savepoints: true, verbose: true };
     let mut b = img.bytes.clone();
+    if let Some((n, fill)) = Alt::parse_len(spec) {
+        println!("alter file length : {} -> {} (extension filled with {:#04x})", b.len(), n, fill);
+    }
     for (off, bytes) in Alt::parse(spec) {
-        println!("alter offset {} : {} -> {}", off, hex(&b[off..off + bytes.len()]), hex(&bytes));
-        b[off..off + bytes.len()].copy_from_slice(&bytes);
+        if off + bytes.len() <= b.len() {
+            println!("alter offset {} : {} -> {}", off, hex(&b[off..off + bytes.len()]), hex(&bytes));
+        }
     }
+    apply_spec(&mut b, Alt::parse_len(spec), &Alt::parse(spec));
     if let Ok(d) = fmt::decode(&img.bytes, PAGE_SIZE) {
-        println!("byte class: {}", d.classify_writes(&Alt::parse(spec)));
+        println!("byte class: {}", class_of_alt(&d, img.bytes.len(), Alt::parse_len(spec), &Alt::parse(spec)));
     }
+    println!("model input: {}", fmt::export_file_line(&b, PAGE_SIZE).trim_end());
     if args.get(4).map(|s| s == "--write").unwrap_or(false) {
         std::fs::write("c12_replay_original.redb", &img.bytes).unwrap();
         std::fs::write("c12_replay_altered.redb", &b).unwrap();
